@@ -266,3 +266,12 @@ def canon(name):
 
 class MissingAnchor(Exception):
     pass
+
+
+class ShapeViolation(MissingAnchor):
+    """a function specified as one straight-line path for all inputs has several return paths: a value-dependent case split
+    (this is what a region-confined defect looks like, DESIGN.md section 1); carries the item for the report's location"""
+
+    def __init__(self, msg, item=None):
+        super().__init__(msg)
+        self.item = item
